@@ -8,14 +8,20 @@ handshake and Hello reply driven by hand).  Operations:
 
   ['call', er, tmo, rs]        callRemote(expectReply=er, timeout per tmo ('N' None, 'Z' 0, 'P' positive),
                                returnSignature rs ('K' = argument omitted, None, or a str))
+  ['call', er, tmo, rs, react] the same, and the caller's errback issues the calls react = [[tmo, rs], ...]
+                               (expectReply=True) synchronously when it runs - a retry - i.e. inside
+                               errorReceived / _onMethodTimeout / methodReturnReceived (return that fails the
+                               declared signature) / connectionLost
   ['callbad', rs]              callRemote with an invalid member name (construction raises)
   ['recall', k]                callRemoteMessage with the message object of call k again (same serial;
                                outside the property, correspondence only)
-  ['ret', who, v]              method return; who = call index | ['u', n] unsolicited serial | ['f', n]
-                               a serial n ahead of the counter; v indexes RET_VARIANTS
+  ['ret', who, v]              method return; who = k (the k-th top-level call operation) | ['r', k, j] (the j-th
+                               call issued by the errback of call k; no such call yet: an unused serial) |
+                               ['u', n] unsolicited serial | ['h', n] Hello's serial | ['f', n] a serial n ahead of
+                               the counter; v indexes RET_VARIANTS
   ['err', who, v]              error reply; v indexes ERR_VARIANTS
   ['group', [ret/err ops]]     several replies in ONE dataReceived
-  ['expire', k]                the clock is advanced to the deadline of call k's timer
+  ['expire', who]              the clock is advanced to the deadline of that call's timer (who as above)
   ['lost', n]                  connectionLost(reason n)
 
 Replies are real message bytes (MethodReturnMessage / ErrorMessage .rawMessage) through
@@ -34,7 +40,7 @@ import re
 import struct
 import types
 
-STREAMS = ['cvt-direct', 'interleave-exhaustive', 'random-schedules', 'serial-reuse', 'not-ready']
+STREAMS = ['cvt-direct', 'interleave-exhaustive', 'random-schedules', 'reentrant', 'serial-reuse', 'not-ready']
 THEOREMS = [
     'refinement',
     'exactly_once',
@@ -260,7 +266,11 @@ class Impl:
         self.rec = []          # (did, 'cb'|'eb', value) for every firing of every Deferred handed out
         self.dids = {}         # id(Deferred) -> did
         self.keep = []         # keeps Deferreds / messages alive (ids stay unique)
-        self.calls = []        # per did: {'serial', 'er', 'tmo', 'rs', 'body', 'mcall'}
+        self.calls = []        # per did: {'serial', 'er', 'tmo', 'rs', 'bad', 'mcall', 'ref'}
+        self.top = []          # k-th top-level call operation -> did
+        self.rdid = {}         # (k, j) -> did of the j-th call issued by the errback of top-level call k
+        self.created = []      # dids created during the current operation, in order
+        self.harness_error = None
         self.n_expire = 0
         self.deadline = {}
 
@@ -269,41 +279,99 @@ class Impl:
             self.reasons[n] = self.failure.Failure(self.terror.ConnectionDone('reason %d' % n))
         return self.reasons[n]
 
-    def _attach(self, did, d):
+    # -- references to calls ----------------------------------------------------
+    @staticmethod
+    def refkey(ref):
+        """int k = the k-th top-level call operation; ['r', k, j] = the j-th call issued by its errback."""
+        if isinstance(ref, int):
+            return ('t', ref)
+        if isinstance(ref, (list, tuple)) and ref and ref[0] == 'r':
+            return ('r', ref[1], ref[2])
+        return None
+
+    def resolve(self, ref):
+        """did of the call a reference names, None when there is no such call (yet)."""
+        key = self.refkey(ref)
+        if key is None:
+            return None
+        if key[0] == 't':
+            return self.top[key[1]] if key[1] < len(self.top) else None
+        return self.rdid.get((key[1], key[2]))
+
+    def _attach(self, did, d, react=None, k=None):
+        """Record every firing of `d`; `react` = list of [tmo, rs]: calls the errback issues at once (a retry)."""
         self.dids[id(d)] = did
         self.keep.append(d)
         rec = self.rec
-        d.addCallbacks(lambda v, did=did: rec.append((did, 'cb', v)) or None,
-                       lambda f, did=did: rec.append((did, 'eb', f)) and None)
+
+        def cb(v):
+            rec.append((did, 'cb', v))
+
+        def eb(f):
+            rec.append((did, 'eb', f))
+            if react:
+                try:
+                    for j, (tmo, rs) in enumerate(react):
+                        self._issue(('r', k, j), 1, tmo, rs)
+                except Exception as e:          # the harness's own failure must not vanish inside the Deferred
+                    self.harness_error = e
+        d.addCallbacks(cb, eb)
+
+    def _issue(self, key, er, tmo, rs, react=None):
+        """callRemote; returns (did, serial).  The serial is read from the bytes the connection wrote."""
+        did = len(self.calls)
+        kw = {}
+        if rs != 'K':
+            kw['returnSignature'] = rs
+        timeout = self.timeout_for(key, did, tmo)
+        mark = len(self.tr.value())
+        d = self.conn.callRemote('/obj', 'Method', interface='org.t.Iface', destination='org.t.Dest',
+                                 expectReply=bool(er), timeout=timeout, **kw)
+        sent = self.tr.value()[mark:]
+        serial = le32(sent[8:12]) if len(sent) >= 16 else None
+        self.calls.append({'serial': serial, 'er': bool(er), 'tmo': tmo, 'rs': rs, 'bad': serial is None,
+                           'ref': key, 'react': react})
+        self.created.append(did)
+        if key[0] == 't':
+            self.top.append(did)
+        else:
+            self.rdid[(key[1], key[2])] = did
+        self._attach(did, d, react, key[1] if key[0] == 't' else None)
+        return did, serial
 
     def plan_deadlines(self, ops):
         """The j-th expire operation of the scenario advances the clock to 10*j; the call it names gets that
-        absolute deadline (first mention wins); timers never expired in the scenario get a far deadline."""
+        absolute deadline (its first mention after the call exists); timers never expired in the scenario get a far
+        deadline."""
         j = 0
-        first = {}
+        pos = {}
         for op in ops:
             if op[0] == 'expire':
                 j += 1
-                first.setdefault(op[1], j)
-        self.first_expire = first
+                pos.setdefault(self.refkey(op[1]), []).append(j)
+        self.expire_pos = pos
 
-    def timeout_for(self, did, tmo):
+    def timeout_for(self, key, did, tmo):
         if tmo == 'N':
             return None
         if tmo == 'Z':
             return 0 if did % 2 == 0 else 0.0
-        j = self.first_expire.get(did)
-        deadline = 10.0 * j if j is not None else 1.0e6 + did
-        self.deadline[did] = deadline
+        later = [j for j in self.expire_pos.get(key, []) if j > self.n_expire]
+        deadline = 10.0 * later[0] if later else 1.0e6 + did
         delta = deadline - self.clock.seconds()
         assert delta > 0
+        self.deadline[did] = deadline
         if did % 2 == 0 and delta == int(delta):
             return int(delta)
         return delta
 
     def serial_of(self, who):
-        if isinstance(who, int):
-            return self.calls[who]['serial']
+        key = self.refkey(who)
+        if key is not None:
+            did = self.resolve(who)
+            if did is None or self.calls[did]['serial'] is None:
+                return 0x7e000000 + (hash(key) % 4096)        # a reply for a call that does not exist
+            return self.calls[did]['serial']
         kind, n = who
         if kind == 'u':
             return 0x7f000000 + n
@@ -333,13 +401,17 @@ class Impl:
         return 'err %d %s %s' % (serial, 'S' + str_hex(name), body_tok(body))
 
     def do(self, op):
-        """Run one operation; returns (model lines, fault names, reply serials used)."""
+        """Run one operation; returns (model lines, fault names, reply serials used, dids the operation names).
+        A model line may contain placeholders `{r:k:j}` (serial of a call an errback will issue), filled in by
+        `finish_lines` when the scenario is over."""
         kind = op[0]
-        lines, faults, serials = [], [], []
+        lines, faults, serials, targets = [], [], [], []
+        self.created = []
         if kind in ('ret', 'err', 'group'):
             # the reply bytes are built outside the guarded region: a failure here is the harness's own
             raws = []
             for sub in (op[1] if kind == 'group' else [op]):
+                targets.append(self.resolve(sub[1]))
                 serial, raw = self.raw_reply(sub)
                 serials.append(serial)
                 lines.append(self.model_reply_line(sub, serial))
@@ -347,40 +419,38 @@ class Impl:
             data = b''.join(raws)
         try:
             if kind == 'call':
-                _, er, tmo, rs = op
-                did = len(self.calls)
-                kw = {}
-                if rs != 'K':
-                    kw['returnSignature'] = rs
-                timeout = self.timeout_for(did, tmo)
-                self.tr.clear()
-                d = self.conn.callRemote('/obj', 'Method', interface='org.t.Iface', destination='org.t.Dest',
-                                         expectReply=bool(er), timeout=timeout, **kw)
-                sent = self.tr.value()
-                self.tr.clear()
-                serial = le32(sent[8:12]) if len(sent) >= 16 else None
-                self.calls.append({'serial': serial, 'er': bool(er), 'tmo': tmo, 'rs': rs, 'bad': serial is None})
-                self._attach(did, d)
-                lines.append('call %d %d %s %s' % (serial, 1 if er else 0, tmo, rs_tok(rs))
-                             if serial is not None else 'callbad %s' % rs_tok(rs))
+                er, tmo, rs = op[1], op[2], op[3]
+                react = op[4] if len(op) > 4 and op[4] and er else None
+                k = len(self.top)
+                did, serial = self._issue(('t', k), er, tmo, rs, react)
+                if serial is None:
+                    self.calls[did]['bad'] = True
+                    lines.append('callbad %s' % rs_tok(rs))
+                else:
+                    lines.append('call %d %d %s %s' % (serial, 1 if er else 0, tmo, rs_tok(rs)))
+                    if react:
+                        lines.append('onerr %d %s' % (did, ' '.join(
+                            '%s %s {r:%d:%d}' % (t, rs_tok(r), k, j) for j, (t, r) in enumerate(react))))
             elif kind == 'callbad':
                 rs = op[1]
                 did = len(self.calls)
                 kw = {}
                 if rs != 'K':
                     kw['returnSignature'] = rs
-                self.tr.clear()
+                mark = len(self.tr.value())
                 d = self.conn.callRemote('/obj', 'bad member!', interface='org.t.Iface', **kw)
-                sent = self.tr.value()
+                sent = self.tr.value()[mark:]
                 self.calls.append({'serial': None, 'er': True, 'tmo': 'N', 'rs': rs, 'bad': True,
-                                   'sent': len(sent)})
+                                   'sent': len(sent), 'ref': ('t', len(self.top))})
+                self.created.append(did)
+                self.top.append(did)
                 self._attach(did, d)
                 lines.append('callbad %s' % rs_tok(rs))
             elif kind == 'recall':
-                k = op[1]
+                k = self.resolve(op[1])
                 did = len(self.calls)
                 c = self.calls[k]
-                timeout = self.timeout_for(did, c['tmo'])
+                timeout = self.timeout_for(('t', len(self.top)), did, c['tmo'])
                 mcall = c.get('mcall')
                 if mcall is None:
                     mcall = self.message.MethodCallMessage('/obj', 'Method', interface='org.t.Iface',
@@ -390,15 +460,19 @@ class Impl:
                     c['mcall'] = mcall
                 d = self.conn.callRemoteMessage(mcall, timeout)
                 d.addCallback(self.conn._cbCvtReply, self.client._NO_CHECK_RETURN)
-                self.tr.clear()
-                self.calls.append({'serial': c['serial'], 'er': True, 'tmo': c['tmo'], 'rs': 'K', 'mcall': mcall})
+                self.calls.append({'serial': c['serial'], 'er': True, 'tmo': c['tmo'], 'rs': 'K', 'mcall': mcall,
+                                   'ref': ('t', len(self.top))})
+                self.created.append(did)
+                self.top.append(did)
                 self._attach(did, d)
                 lines.append('call %d 1 %s K' % (c['serial'], c['tmo']))
             elif kind in ('ret', 'err', 'group'):
                 self.conn.dataReceived(data)
             elif kind == 'expire':
                 self.n_expire += 1
-                lines.append('expire %d' % op[1])
+                did = self.resolve(op[1])
+                targets.append(did)
+                lines.append('expire %d' % (did if did is not None else 999999))
                 target = 10.0 * self.n_expire
                 self.clock.advance(target - self.clock.seconds())
             elif kind == 'lost':
@@ -414,7 +488,20 @@ class Impl:
             raise
         except Exception as e:   # anything else escaping the code under test
             faults.append('exc:' + type(e).__name__)
-        return lines, faults, serials
+        if self.harness_error is not None:
+            raise self.harness_error
+        self.tr.clear()
+        return lines, faults, serials, targets
+
+    def finish_lines(self, lines):
+        """Fill in the serials of the calls issued by errbacks (an errback that never ran: any unused serial)."""
+        def sub(m):
+            k, j = int(m.group(1)), int(m.group(2))
+            did = self.rdid.get((k, j))
+            if did is None or self.calls[did]['serial'] is None:
+                return str(0x7d000000 + 64 * k + j)
+            return str(self.calls[did]['serial'])
+        return [PLACEHOLDER_RE.sub(sub, ln) for ln in lines]
 
     # -- canonical observation -------------------------------------------------
     def outcome_str(self, did, kind, val):
@@ -471,11 +558,13 @@ class Impl:
                                             ','.join('%d:%d' % t for t in ts), ','.join(faults))
 
 
+PLACEHOLDER_RE = re.compile(r'\{r:(\d+):(\d+)\}')
 LINE_RE = re.compile(r'^F\[(.*)\] P\[(.*)\] T\[(.*)\] X\[(.*)\]$')
 
 
 def merge_lines(lines):
     """Merge the model's answers to the operations of one group into one observation line."""
+    lines = [ln for ln in lines if ln != 'ok'] or ['ok']      # `onerr` only registers an errback
     if len(lines) == 1:
         return lines[0]
     fs, xs, p, t = [], [], '', ''
@@ -492,7 +581,7 @@ def merge_lines(lines):
 
 
 class Step:
-    __slots__ = ('op', 'lines', 'faults', 'new', 'obs', 'serials')
+    __slots__ = ('op', 'lines', 'faults', 'new', 'obs', 'serials', 'targets', 'created')
 
 
 def _bodies_for(im, op, new, serials):
@@ -523,6 +612,7 @@ class Monitor:
         self.state = {}         # did -> 'open' | 'done'
         self.fired = {}         # did -> number of firings
         self.lost = False
+        self.postloss = set()   # calls issued while or after the connection was lost
         self.problems = []      # (key, text)
 
     def bad(self, key, text):
@@ -599,7 +689,7 @@ class Monitor:
             self.state[0] = 'skip'
             return
         if kind in ('call', 'callbad', 'recall'):
-            did = len(self.state)
+            did = st.created[0]
             c = im.calls[did]
             if c.get('bad'):
                 self.state[did] = 'open'
@@ -613,27 +703,31 @@ class Monitor:
                 self.state[did] = 'open'
         elif kind in ('ret', 'err', 'group'):
             subs = op[1] if kind == 'group' else [op]
-            for sub, serial in zip(subs, st.serials):
+            for sub, who in zip(subs, st.targets):
                 # the reply belongs to the call it was built for (by identity, not by looking for calls that
                 # happen to carry the same serial): nothing else may complete on it.  A reply built for no call
                 # (unsolicited, Hello's serial, a serial not yet issued) belongs to nobody.
-                who = sub[1]
-                if not isinstance(who, int):
+                if who is None:
                     continue
                 c = im.calls[who]
                 if not (self.state.get(who) == 'open' and c['er'] and not c.get('bad')) or who in expected:
                     continue
                 did = who
+                # no data is delivered on a lost connection: a reply fed to it anyway for a call issued after the
+                # loss may complete that call (correctly) or not - only its deadline is owed to it
+                into = optional if did in self.postloss else expected
+                if did in into:
+                    continue
                 if sub[0] == 'ret':
                     sig, body = RET_VARIANTS[sub[2]]
-                    expected[did] = (lambda k, v, did=did, sig=sig, body=body: self.expect_return(did, sig, body, k, v))
+                    into[did] = (lambda k, v, did=did, sig=sig, body=body: self.expect_return(did, sig, body, k, v))
                 else:
                     name, sig, body = ERR_VARIANTS[sub[2]]
-                    expected[did] = (lambda k, v, did=did, name=name, sig=sig, body=body:
-                                     self.expect_error(did, name, sig, body, k, v))
+                    into[did] = (lambda k, v, did=did, name=name, sig=sig, body=body:
+                                 self.expect_error(did, name, sig, body, k, v))
         elif kind == 'expire':
-            did = op[1]
-            if self.state.get(did) == 'open' and im.calls[did]['tmo'] == 'P' and im.calls[did]['er']:
+            did = st.targets[0] if st.targets else None
+            if did is not None and self.state.get(did) == 'open' and im.calls[did]['tmo'] == 'P' and im.calls[did]['er']:
                 def chk(k, v, did=did):
                     if not (k == 'eb' and isinstance(v.value, im.error.TimeOut)):
                         self.bad('deadline-not-timeout', 'call %d: deadline passed, delivered %s' % (did, _short(k, v)))
@@ -678,6 +772,12 @@ class Monitor:
         for f in st.faults:
             key = 'double-completion' if f == 'exc:AlreadyCalledError' else 'operation-raised'
             self.bad(key, '%r raised %s out of the connection' % (op, f))
+        # calls issued by errbacks that ran during this operation (retries) are issued calls like any other
+        for did in st.created:
+            if self.lost:
+                self.postloss.add(did)
+            if did not in self.state:
+                self.state[did] = 'open'
 
         # (2) no residue for completed calls; nothing at all after a loss
         pend = im.conn._pendingCalls
@@ -701,10 +801,15 @@ class Monitor:
             self.bad('residue-timer', '%d delayed call(s) scheduled, only %d call(s) still wait under a deadline'
                      % (len(delayed), waiting))
         if kind == 'lost':
-            if pend:
-                self.bad('residue-after-loss', '_pendingCalls not empty after connectionLost: %r' % sorted(pend))
-            if delayed:
-                self.bad('residue-timer-after-loss', '%d delayed call(s) left after connectionLost' % len(delayed))
+            # what the errbacks issued while the connection was being torn down is new bookkeeping, not residue
+            mine = {im.calls[d]['serial'] for d in st.created}
+            left = sorted(k for k in pend if k not in mine)
+            if left:
+                self.bad('residue-after-loss', '_pendingCalls not empty after connectionLost: %r' % left)
+            fresh = sum(1 for d in st.created if im.calls[d]['tmo'] in ('P', 'Z'))
+            if len(delayed) > fresh:
+                self.bad('residue-timer-after-loss', '%d delayed call(s) left after connectionLost (%d issued by '
+                         'errbacks during it)' % (len(delayed), fresh))
 
 
 def tok_deep(v):
@@ -919,6 +1024,79 @@ def gen_random(rng, max_calls=12):
             'serial0': rng.choice([1, 1, 200, 2570, 65530, 2 ** 31 - 40]), 'ops': ops}
 
 
+REENTRANT_REACTS = [[['P', 'K']], [['N', 'K']], [['Z', 'K']], [['P', 'K'], ['N', 'K']], [['P', 's'], ['P', 'K']]]
+
+
+def gen_reentrant_systematic():
+    """One or two calls whose errback retries (1-2 new calls, with / without deadline); the errback is made to run
+    by an error reply, the call's own deadline, a return failing the declared signature, or the loss of the
+    connection; then every short order of {deadline, return, error, loss} on the calls the errback issued."""
+    def follows(react, k, may_lose):
+        r0 = ['r', k, 0]
+        x0 = [['expire', r0]] if react[0][0] == 'P' else []
+        out = [[], [['ret', r0, 2]], [['err', r0, 2]]]
+        if x0:
+            out += [x0, x0 + [['ret', r0, 2]], [['ret', r0, 2]] + x0, [['err', r0, 2]] + x0, x0 + x0]
+        if may_lose:
+            out += [[['lost', 1]], [['lost', 1]] + x0, [['ret', r0, 4], ['lost', 1]]]
+            if x0:
+                out += [x0 + [['lost', 1]]]
+        if len(react) > 1:
+            r1 = ['r', k, 1]
+            x1 = [['expire', r1]] if react[1][0] == 'P' else []
+            out += [x0 + x1, x1 + x0, [['ret', r1, 2]] + x0 + x1]
+            if may_lose:
+                out += [[['lost', 1]] + x1 + x0]
+        return out
+
+    for nbase in (1, 2):
+        for base_tmo in ('P', 'N'):
+            for react in REENTRANT_REACTS:
+                for trig in ('err', 'expire', 'mismatch', 'lost'):
+                    if trig == 'expire' and base_tmo != 'P':
+                        continue
+                    rs = 's' if trig == 'mismatch' else 'K'
+                    head = [['call', 1, base_tmo, rs, react] for _ in range(nbase)]
+                    fire = {'err': [['err', 0, 2]], 'expire': [['expire', 0]], 'mismatch': [['ret', 0, 4]],
+                            'lost': [['lost', 0]]}[trig]
+                    for f in follows(react, 0, trig != 'lost'):
+                        tail = list(f)
+                        if nbase == 2 and trig == 'lost':
+                            # the second call's errback retried as well
+                            tail = tail + ([['expire', ['r', 1, 0]]] if react[0][0] == 'P' else [['ret', ['r', 1, 0], 2]])
+                        yield {'stream': 'reentrant', 'ready': True, 'serial0': 1, 'ops': head + fire + tail}
+
+
+def gen_reentrant_random(rng):
+    n = rng.randint(1, 5)
+    ops, tops = [], []           # tops: per top-level call {'tmo', 'react'}
+    lost = False
+    for _ in range(rng.randint(n + 1, 4 * n + 6)):
+        r = rng.random()
+        if len(tops) < n and (r < 0.3 or not tops):
+            tmo = rng.choice('PPN')
+            rs = rng.choice(['K', 'K', 's', 'i'])
+            react = [[rng.choice('PPNZ'), rng.choice(['K', 'K', 's'])] for _ in range(rng.choice([0, 1, 1, 2]))]
+            ops.append(['call', 1, tmo, rs, react] if react else ['call', 1, tmo, rs])
+            tops.append({'tmo': tmo, 'react': react})
+            continue
+        if not lost and r < 0.4:
+            ops.append(['lost', rng.randrange(3)])
+            lost = True
+            continue
+        refs = list(range(len(tops)))
+        refs += [['r', k, j] for k, t in enumerate(tops) for j in range(len(t['react']))]
+        who = rng.choice(refs)
+        tmo = tops[who]['tmo'] if isinstance(who, int) else tops[who[1]]['react'][who[2]][0]
+        if tmo == 'P' and rng.random() < 0.5:
+            ops.append(['expire', who])
+        elif rng.random() < 0.55:
+            ops.append(['err', who, rng.randrange(len(ERR_VARIANTS))])
+        else:
+            ops.append(['ret', who, rng.randrange(len(RET_VARIANTS))])
+    return {'stream': 'reentrant', 'ready': True, 'serial0': rng.choice([1, 1, 300]), 'ops': ops}
+
+
 def gen_reuse(rng):
     """Scenarios that re-send one message object (same serial): correspondence of the dict overwrite and of the
     faults (KeyError / AlreadyCalled) only; the property's hypothesis does not hold here."""
@@ -1060,28 +1238,33 @@ def monitor_scenario(scn):
     mon = Monitor(im)
     steps = []
     if not scn.get('ready', True):
+        # the Hello call issued by connectionAuthenticated is Deferred 0 of the model
         d, timeout = im.conn._pendingCalls[im.hello_serial]
         im.dids[id(d)] = 0
         im.keep.append(d)
-        im.calls.append({'serial': im.hello_serial, 'er': True, 'tmo': 'N', 'rs': 'K', 'hello': True})
+        im.calls.append({'serial': im.hello_serial, 'er': True, 'tmo': 'N', 'rs': 'K', 'hello': True, 'ref': None})
         st = Step()
         st.op, st.lines, st.faults, st.new, st.serials = ['hello'], ['call %d 1 N K' % im.hello_serial], [], [], []
+        st.targets, st.created = [], [0]
         st.obs = im.snapshot([], [], {})
         steps.append(st)
         mon.step(st)
     for op in ops:
         n0 = len(im.rec)
-        lines, faults, serials = im.do(op)
+        lines, faults, serials, targets = im.do(op)
         new = im.rec[n0:]
         st = Step()
         st.op, st.lines, st.faults, st.new, st.serials = op, lines, faults, new, serials
+        st.targets, st.created = targets, list(im.created)
         st.obs = im.snapshot(new, faults, _bodies_for(im, op, new, serials))
         steps.append(st)
         mon.step(st)
+    for st in steps:
+        st.lines = im.finish_lines(st.lines)
     return im, steps, mon.problems
 
 
-ORACLE_STREAMS = ('interleave-exhaustive', 'random-schedules')
+ORACLE_STREAMS = ('interleave-exhaustive', 'random-schedules', 'reentrant')
 
 
 def process_batch(ctx, batch):
@@ -1135,7 +1318,11 @@ def stats(ctx, scn, im, steps):
         ctx.stat('op:' + o[0])
         if o[0] == 'call':
             ctx.stat('call:er=%d,tmo=%s' % (o[1], o[2]))
+            if len(o) > 4 and o[4]:
+                ctx.stat('call-with-retrying-errback')
     for st in steps:
+        if len(st.created) > (1 if st.op[0] in ('call', 'callbad', 'recall') else 0):
+            ctx.stat('retry-issued-inside:' + st.op[0], len(st.created) - (1 if st.op[0] in ('call', 'callbad', 'recall') else 0))
         for did, k, v in st.new:
             if k == 'cb':
                 ctx.stat('completion:value')
@@ -1175,6 +1362,12 @@ def run(ctx):
         ctx.exhaustive = True
         n = ctx.scale(quick=1500, thorough=15000)
         for b in batches((gen_random(ctx.rng, 12) for _ in range(n)), 4000):
+            if not process_batch(ctx, b):
+                return
+        if not process_batch(ctx, list(gen_reentrant_systematic())):
+            return
+        k = ctx.scale(quick=700, thorough=12000)
+        for b in batches((gen_reentrant_random(ctx.rng) for _ in range(k)), 4000):
             if not process_batch(ctx, b):
                 return
         m = ctx.scale(quick=600, thorough=6000)
